@@ -310,11 +310,13 @@ def spec_special(I, st, name, node):
                 side.append(z3.And(c != NULL, st.alloc[c] if not st.in_old else st.alloc0[c], st.cls_is(c, strip_opt(ty)[1])))
         st.frames.append(fr)
         st.spec_side.append([])
+        st.bound_stack.extend(bound)
         try:
             body = I.truthy(st, I.eval(st, lam.body))
         finally:
             st.frames.pop()
             facts = st.spec_side.pop()
+            del st.bound_stack[len(st.bound_stack) - len(bound):]
         # typing facts about values read in the body are heap invariants: universally closed over the bound variables
         from .solve import mentions
         for f in facts:
@@ -626,8 +628,37 @@ def modifies_locations(I, st, c, env, mod_nodes):
     return out
 
 
+class Every:
+    """modifies entry `every(Cls)`: all objects of class Cls (and the containers they own through their fields)"""
+
+    def __init__(self, cls):
+        self.cls = cls
+        self.none = FALSE
+        self.term = None
+        self.ty = ("Ref", cls)
+
+    def covers_object(self, st, o):
+        return st.cls_is(o, self.cls)
+
+    def covers_content(self, I, st, r):
+        fids = []
+        for n in set(REG.subclass_names(self.cls)) | {self.cls}:
+            for attr, fty in REG.get(n).all_fields(REG).items():
+                b = strip_opt(fty)
+                if is_ref(b) and REG.get(b[1]).kind != "object":
+                    fids.append(prelude.field_id(attr))
+        if not fids:
+            return FALSE
+        return z3.And(st.cls_is(prelude.owner_obj(r), self.cls), z3.Or(*[prelude.owner_fld(r) == f for f in fids]))
+
+
 def _modifies_one(I, st, env, mn, out):
     from . import specs
+    if isinstance(mn, ast.Call) and isinstance(mn.func, ast.Name) and mn.func.id == "every":
+        cls = ast.unparse(mn.args[0])
+        keys = I.object_keys(cls)
+        out.append((Every(cls), keys))
+        return
     if True:
         if isinstance(mn, ast.Call) and isinstance(mn.func, ast.Name) and mn.func.id == "content":
             v = specs.eval_spec(I, st, mn.args[0], env)
@@ -673,6 +704,36 @@ def _modifies_one(I, st, env, mn, out):
 
 def havoc_locations(I, st, locs):
     for v, keys in locs:
+        if isinstance(v, Every):
+            okeys = {k for k, _ in I.object_keys(v.cls)}
+            ckeys = set()
+            for n in set(REG.subclass_names(v.cls)) | {v.cls}:
+                ckeys |= {k for k, _ in I.content_keys(REG.get(n))}
+            for key, sort in keys:
+                arr = st.hget(key, sort)
+                new = st.fresh(arr.sort(), "hvall")
+                o = z3.FreshConst(RefS, "o")
+                if key in ("$len",) or key.startswith("$dom") or key.startswith("$val") or key.startswith("$items"):
+                    cond = v.covers_content(I, st, o)
+                else:
+                    cond = v.covers_object(st, o)
+                st.assume(z3.ForAll([o], z3.Or(cond, z3.Select(new, o) == z3.Select(arr, o))))
+                st.hset(key, new)
+            # containers owned by such objects
+            for n in set(REG.subclass_names(v.cls)) | {v.cls}:
+                for attr, fty in REG.get(n).all_fields(REG).items():
+                    b = strip_opt(fty)
+                    if is_ref(b) and REG.get(b[1]).kind != "object":
+                        for key, sort in I.content_keys(REG.get(b[1])):
+                            if any(key == k2 for k2, _ in keys):
+                                continue
+                            arr = st.hget(key, sort)
+                            new = st.fresh(arr.sort(), "hvall")
+                            o = z3.FreshConst(RefS, "o")
+                            st.assume(z3.ForAll([o], z3.Or(v.covers_content(I, st, o), z3.Select(new, o) == z3.Select(arr, o))))
+                            st.hset(key, new)
+                            keys = keys + [(key, sort)]
+            continue
         for key, sort in keys:
             arr = st.hget(key, sort)
             if not z3.is_false(v.none):
